@@ -429,6 +429,9 @@ pub fn shards(tier: &str) -> Vec<String> {
     // script S15: build / count with every node cached / drop, three times, against gc; preemption bound 2)
     for k in ["bdd", "bcdd", "zbdd"] {
         v.push(format!("sched:{k}:s15:b2"));
+        // S16: a cache filled before the collection; both threads inside a session of another manager, so that
+        // freed slots are handed out again while the collection is still running
+        v.push(format!("sched:{k}:s16:b2"));
     }
     if tier == "thorough" {
         for k in ["bdd", "bcdd", "zbdd"] {
